@@ -127,7 +127,7 @@ pub fn create_string_constructor(interp: &mut Interpreter) -> JsObjectRef {
     interp
         .string_prototype
         .borrow_mut()
-        .set_property(constructor_key, JsValue::Object(constructor.clone()));
+        .define_builtin_property(constructor_key, JsValue::Object(constructor.clone()));
 
     constructor
 }
